@@ -5,7 +5,86 @@
    Model/RemoteSpec.v (the specifications). *)
 From Oras Require Import Base.Prelude Base.Regex Generated.GC20 Generated.GC13 Model.Reference
   Model.Registry Model.RemoteClient Model.RemoteSpec
-  Proofs.Reference Proofs.RemoteClient Proofs.RemoteSeek.
+  Proofs.Reference Proofs.RemoteClient Proofs.RemoteSeek Proofs.RemoteRefine.
+
+(* ------------------------------------------------------------------ *)
+(* Refinement: the client run against the registry model behaves as the content store
+   with tags [spec_run] (Model/RemoteSpec.v): for EVERY history of Push / Fetch / Exists /
+   Delete / Resolve / FetchReference / Tag / PushReference / Mount / blob Resolve /
+   blob FetchReference, EVERY capability profile [p] (digest headers, range support,
+   Content-Length on GET, mounting, Referrers API), every ManifestMediaTypes option,
+   every initial referrers state and any hash function producing well-formed digests:
+   the results are those of the store and the registry's final content is the store's.
+
+   [_partial]: hypotheses [wf_hist] (Model/RemoteSpec.v) -- descriptors are accurate for
+   what the store holds, manifests are decodable and subject-less (subjects: C14;
+   Predecessors below), and the excluded mechanism of the known finding
+   head-tag-no-digest-header: a tag is resolved by HEAD only against a registry that
+   sends Docker-Content-Digest.  [C13_refines_store_refuted] is the witness that the
+   statement is false without that last hypothesis. *)
+Theorem C13_refines_store_partial :
+  forall (H : str -> str) (parse_mt : str -> option str) (subject_of : str -> option (option desc))
+         (main other : str) (user_mts : list str) (p : profile),
+    str_eqb main other = false ->
+    parse_mt ct_octet = Some ct_octet ->
+    (forall c, valid_digest (H c) = true) ->
+    forall other_blobs rst os g out,
+      (forall d c, lookup d other_blobs = Some c -> d = H c) ->
+      wf_hist H parse_mt subject_of main user_mts p (mkStore [] [] [] other_blobs) os ->
+      run_history H parse_mt subject_of main other user_mts p None other_blobs rst os = (g, out) ->
+      map snd out = snd (spec_run H main user_mts (mkStore [] [] [] other_blobs) os) /\
+      store_of g = fst (spec_run H main user_mts (mkStore [] [] [] other_blobs) os).
+Proof. exact run_history_refines. Qed.
+Print Assumptions C13_refines_store_partial.
+
+(* without the digest-header hypothesis the full statement is false (finding
+   head-tag-no-digest-header): PushReference under a tag succeeds, Resolve of the tag fails *)
+Theorem C13_refines_store_refuted :
+  map snd (snd (run_history w_H (fun s => Some s) (fun _ => Some None) (b "app") (b "src") []
+                            w_profile None [] RSUnknown w_ops))
+  = [ROk; RErr EOther] /\
+  snd (spec_run w_H (b "app") [] (mkStore [] [] [] []) w_ops) = [ROk; RDesc w_desc].
+Proof. exact resolve_tag_without_digest_header_refuted. Qed.
+Print Assumptions C13_refines_store_refuted.
+
+(* Predecessors over the Referrers API returns exactly the stored manifests whose
+   subject is the given descriptor (any registry state, no hypothesis on the history) *)
+Theorem C13_predecessors_reflect :
+  forall (H : str -> str) (subject_of : str -> option (option desc)) (main other : str) (p : profile)
+         g n rst d,
+    p_referrers p = true -> rst <> RSUnsupported ->
+    predecessors main (reg * N) (cexch H subject_of main other p None) (g, n) rst d
+    = ((g, n + 1), RSSupported,
+       [(req GET main (EReferrers (d_dg d)),
+         mkResp 200 (Some mt_index) None None None false None
+                (referrers_of (subj_of subject_of) g (d_dg d)) [])],
+       RDescs (referrers_of (subj_of subject_of) g (d_dg d))).
+Proof. exact predecessors_reflect. Qed.
+Print Assumptions C13_predecessors_reflect.
+
+(* non-vacuity of the refinement hypotheses: a history with a manifest pushed under a
+   tag, resolved, fetched, re-tagged, a blob mounted and everything deleted again *)
+Definition ex_profile := mkProfile true false false true false.
+Definition ex_blob := b "layer".
+Definition ex_bdesc := mkDesc ct_octet zero_digest 5.
+Definition ex_ops : list op :=
+  [OPushRef w_desc w_content (b "v1"); OResolve (b "v1"); OFetchRef (b "v1"); OFetch w_desc;
+   OTag w_desc (b "v2"); OExists w_desc; OMount ex_bdesc None; OFetch ex_bdesc;
+   ODelete w_desc; OResolve (b "v2")].
+Example C13_refines_store_nonvacuous :
+  wf_hist w_H (fun s => Some s) (fun _ => Some None) (b "app") [] ex_profile
+          (mkStore [] [] [] [(zero_digest, ex_blob)]) ex_ops /\
+  snd (spec_run w_H (b "app") [] (mkStore [] [] [] [(zero_digest, ex_blob)]) ex_ops)
+  = [ROk; RDesc w_desc; RDescBytes w_desc w_content; RBytes w_content; ROk; RBool true; ROk;
+     RBytes ex_blob; ROk; RErr ENotFound].
+Proof.
+  split; [|vm_compute; reflexivity].
+  vm_compute. repeat split; auto; intros;
+    repeat match goal with
+           | X : Some _ = Some _ |- _ => injection X; clear X; intros; subst
+           | X : None = Some _ |- _ => discriminate X
+           end; auto.
+Qed.
 
 (* ------------------------------------------------------------------ *)
 (* Every request the client emits is one the specification allows -- against ANY
@@ -25,6 +104,19 @@ Theorem C13_requests_allowed :
       Forall (fun tr => Forall (fun qr => allowed (fst qr) = true) (fst tr)) out.
 Proof. exact run_ops_allowed. Qed.
 Print Assumptions C13_requests_allowed.
+
+(* the registry model itself meets [loc_ok], also with one response corrupted in any
+   field except the status: every request of every history is allowed *)
+Theorem C13_requests_allowed_registry :
+  forall (H : str -> str) (parse_mt : str -> option str) (subject_of : str -> option (option desc))
+         (main other : str) (user_mts : list str) (p : profile) (kor : option (N * corruption))
+         other_blobs rst os g out,
+    valid_repository main = true -> valid_repository other = true ->
+    no_status_corruption kor -> Forall op_ok os ->
+    run_history H parse_mt subject_of main other user_mts p kor other_blobs rst os = (g, out) ->
+    Forall (fun tr => Forall (fun qr => allowed (fst qr) = true) (fst tr)) out.
+Proof. exact run_history_allowed. Qed.
+Print Assumptions C13_requests_allowed_registry.
 
 (* ------------------------------------------------------------------ *)
 (* Corruption: whatever the server answers, a call succeeds only if the response
@@ -50,6 +142,23 @@ Theorem C13_corruption_rejected_manifest_fetch :
                 len_consistent r (d_sz d) /\ dig_consistent r (d_dg d).
 Proof. exact man_fetch_consistent. Qed.
 Print Assumptions C13_corruption_rejected_manifest_fetch.
+
+(* the same in the words of the property: take any response, corrupt one field so that it
+   contradicts the descriptor (other digest, unparsable digest, Content-Length + 1, other /
+   unparsable / missing Content-Type, a status other than 200) -- Fetch fails. *)
+Theorem C13_corruption_rejected_single_field_blob :
+  forall (srv : Type) repo (s : srv) k r0 d,
+    contradicts_fetch (fun _ => None) false k r0 d ->
+    exists e, snd (blob_fetch srv (fun s _ => (s, corrupt k r0)) repo s d) = RErr e.
+Proof. exact blob_fetch_corrupted. Qed.
+Print Assumptions C13_corruption_rejected_single_field_blob.
+
+Theorem C13_corruption_rejected_single_field_manifest :
+  forall (parse_mt : str -> option str) (main : str) (srv : Type) (s : srv) k r0 d,
+    contradicts_fetch parse_mt true k r0 d ->
+    exists e, snd (man_fetch parse_mt main srv (fun s _ => (s, corrupt k r0)) s d) = RErr e.
+Proof. exact man_fetch_corrupted. Qed.
+Print Assumptions C13_corruption_rejected_single_field_manifest.
 
 (* generateDescriptor (Resolve / FetchReference): the descriptor is what the
    response states; it carries the reference's digest when the reference is a
